@@ -1,7 +1,7 @@
 (* MicroConformLemmas.v -- C01, microstep comparison on the history-free core, the phases: exiting,
    taking the transitions, entering (given the list of states to enter).  Proofs only. *)
 From V Require Import Base NameMatch Chart Exec Large LargeLemmas Spec Legal SetLemmas LegalAbstract LegalLarge
-  LargeCacheLemmas Trace TraceLemmas SelectConformRoot MicroConform.
+  LargeCacheLemmas Trace TraceLemmas SelectConform SelectConformLemmas SelectConformRoot MicroConform.
 Local Open Scope nat_scope.
 
 (* ------------------------------------------------------------------ content does not see views that agree on the ids it asks for *)
@@ -343,24 +343,185 @@ Lemma spec_enter_one_staged c e s x i :
   s_tail c e (insert_sorted i (s_cfg s)) entered1 s x2 i.
 Proof. reflexivity. Qed.
 
+Lemma done_walk_step c cfg f a x : fs_type (st c a) <> FParallel ->
+  done_walk c (S f) cfg (Some a) x = done_walk c f cfg (fs_parent (st c a)) x.
+Proof. intros H. cbn [done_walk]. destruct (fs_type (st c a)); try reflexivity. congruence. Qed.
+
+Lemma done_walk_par c cfg f a x : fs_type (st c a) = FParallel ->
+  done_walk c (S f) cfg (Some a) x =
+  if in_final c (n_states c) cfg a then done_walk c f cfg (fs_parent (st c a)) (raise_int (done_event c a) x) else x.
+Proof. intros H. cbn [done_walk]. rewrite H. reflexivity. Qed.
+
+Lemma done_walk_top c cfg f x : done_walk c f cfg None x = x.
+Proof. destruct f; reflexivity. Qed.
+
 Section Enter.
 Variable c : fchart.
 Hypothesis W : WF c.
 Variable ts : list nat.
 Variable e : eset.
+Variable CF : nat -> Prop.
+Notation Anc := (LegalAbstract.Anc (fun i => fs_parent (st c i))).
 Hypothesis Hhc : e_histcontent e = [].
 Hypothesis Hsilent : forall i, mentions_bs (fs_sid (st c 0)) (fs_onentry (st c i)) = false.
 Hypothesis Hdata : fc_late c = false -> forall i, i <> 0 -> fs_data (st c i) = [].
-Hypothesis Hfin : forall i a, fs_type (st c i) = FFinal -> Anc (fun i => fs_parent (st c i)) a i -> fs_type (st c a) <> FParallel.
+(* every <parallel> has a child; a <final> is not the child of a <parallel>, and above its grand-parent there
+   is no <parallel> *)
+Hypothesis HPAR : forall s, s < nstates c -> fs_type (st c s) = FParallel -> fs_children (st c s) <> [].
+Hypothesis Hfin_par : forall i p, fs_type (st c i) = FFinal -> fs_parent (st c i) = Some p -> fs_type (st c p) <> FParallel.
+Hypothesis Hfin_up : forall i p a, fs_type (st c i) = FFinal -> fs_parent (st c i) = Some p -> Anc a p ->
+  fs_parent (st c p) = Some a \/ fs_type (st c a) <> FParallel.
+(* the configuration after the microstep has at most one child per compound state *)
+Hypothesis Huniq : forall q k1 k2, fs_type (st c q) = FCompound -> In k1 (fs_children (st c q)) -> In k2 (fs_children (st c q)) ->
+  CF k1 -> CF k2 -> k1 = k2.
 
 Lemma no_pseudo k : is_pseudo (fs_type (st c k)) = false.
 Proof. destruct (wf_types c W k) as [H|[H|[H|H]]]; rewrite H; reflexivity. Qed.
 
-Lemma tails_conform cfgS initd1 entered1 s x2 i : 0 < i -> i < nstates c ->
-  data_rel c initd1 entered1 ->
-  erel c (l_tail c ts (0 :: cfgS) initd1 (negb (s_running s)) x2 i) (s_tail c e cfgS entered1 s x2 i).
+Lemma child_states_core' s : child_states c s = fs_children (st c s).
 Proof.
-  intros Hi Hin HD. destruct (wf_par_some c W i Hi Hin) as (p & Hp).
+  unfold child_states. apply filter_all. intros k _. unfold is_proper, sty.
+  destruct (wf_types c W k) as [H|[H|[H|H]]]; rewrite H; reflexivity.
+Qed.
+
+Lemma par_in_range y : fs_type (st c y) = FParallel -> y < nstates c.
+Proof.
+  intros H. destruct (Nat.lt_ge_cases y (nstates c)) as [|Hge]; [assumption|].
+  assert (E : st c y = dummy_state) by (unfold st; now apply nth_overflow). rewrite E in H. discriminate.
+Qed.
+
+(* below a state without <final>s the two "in a final state" tests say no *)
+Lemma nf_large cfg : forall fuel y, (forall z, z = y \/ Anc y z -> fs_type (st c z) <> FFinal) ->
+  in_final c fuel cfg y = false.
+Proof.
+  induction fuel as [|f IH]; intros y H; cbn [in_final]; [reflexivity|].
+  assert (Hkid : forall k, In k (fs_children (st c y)) -> in_final c f cfg k = false).
+  { intros k Hk. apply IH. intros z Hz. apply H. right. apply (wf_children c W) in Hk.
+    destruct Hz as [->|Hz]; [now apply anc_parent | eapply anc_trans; [apply anc_parent; exact Hk | exact Hz]]. }
+  destruct (wf_types c W y) as [Ht|[Ht|[Ht|Ht]]]; rewrite Ht.
+  - reflexivity.
+  - destruct (find (fun ch => mem ch cfg) (fs_children (st c y))) as [k|] eqn:E; [|reflexivity].
+    apply find_some in E as [Hk _]. now apply Hkid.
+  - pose proof (HPAR y (par_in_range y Ht) Ht) as Hne. destruct (fs_children (st c y)) as [|k r] eqn:E; [congruence|].
+    cbn [forallb]. rewrite Hkid by now left. reflexivity.
+  - exfalso. exact (H y (or_introl eq_refl) Ht).
+Qed.
+
+Lemma nf_spec cfg : forall fuel y, (forall z, z = y \/ Anc y z -> fs_type (st c z) <> FFinal) ->
+  in_final_state c fuel cfg y = false.
+Proof.
+  induction fuel as [|f IH]; intros y H; cbn [in_final_state]; [reflexivity|].
+  assert (Hanc : forall k z, In k (fs_children (st c y)) -> z = k \/ Anc k z -> Anc y z).
+  { intros k z Hk Hz. apply (wf_children c W) in Hk.
+    destruct Hz as [->|Hz]; [now apply anc_parent | eapply anc_trans; [apply anc_parent; exact Hk | exact Hz]]. }
+  rewrite child_states_core'. unfold is_compound_state, is_parallel_state, sty.
+  destruct (wf_types c W y) as [Ht|[Ht|[Ht|Ht]]]; rewrite Ht; try reflexivity.
+  - apply not_true_is_false. intros Hex. apply existsb_exists in Hex as (k & Hk & Hf).
+    apply andb_true_iff in Hf as [Hf _]. unfold is_final_state, sty in Hf.
+    destruct (fs_type (st c k)) eqn:Hkt; try discriminate. apply (H k); [right; apply (Hanc k k Hk); now left | exact Hkt].
+  - pose proof (HPAR y (par_in_range y Ht) Ht) as Hne. destruct (fs_children (st c y)) as [|k r] eqn:E; [congruence|].
+    cbn [forallb]. rewrite IH; [reflexivity|]. intros z Hz. apply H. right. apply (Hanc k z); [now left | exact Hz].
+Qed.
+
+(* every <final> below g is a grand-child of g whose parent is not a <parallel> *)
+Definition CondG (g : nat) : Prop :=
+  forall f, fs_type (st c f) = FFinal -> Anc g f ->
+    exists q, fs_parent (st c f) = Some q /\ fs_parent (st c q) = Some g /\ fs_type (st c q) <> FParallel.
+
+Lemma anc_antisym a b : Anc a b -> Anc b a -> False.
+Proof. intros H1 H2. exact (anc_irrefl c W _ (anc_trans c _ _ _ H1 H2)). Qed.
+
+Lemma in_final_child cfgS g q fuel fuel' :
+  CondG g -> fs_parent (st c q) = Some g -> (forall y, In y cfgS -> CF y) -> 2 <= fuel -> 1 <= fuel' ->
+  in_final c fuel (0 :: cfgS) q = in_final_state c fuel' cfgS q.
+Proof.
+  intros HG Hq Hcf Hf Hf'.
+  assert (Hgq : Anc g q) by now apply anc_parent.
+  destruct fuel as [|[|f2]]; try lia. destruct fuel' as [|f']; try lia.
+  destruct (wf_types c W q) as [Ht|[Ht|[Ht|Ht]]].
+  - cbn [in_final in_final_state]. unfold is_compound_state, is_parallel_state, sty. rewrite Ht. reflexivity.
+  - (* compound *)
+    cbn [in_final_state]. unfold is_compound_state, sty. rewrite Ht, child_states_core'.
+    change (in_final c (S (S f2)) (0 :: cfgS) q) with
+      (match fs_type (st c q) with
+       | FFinal => true | FAtomic => false
+       | FParallel => forallb (in_final c (S f2) (0 :: cfgS)) (fs_children (st c q))
+       | FInitial => false
+       | FCompound => match find (fun ch => mem ch (0 :: cfgS)) (fs_children (st c q)) with
+                      | Some ch => in_final c (S f2) (0 :: cfgS) ch
+                      | None => false end
+       | FHistShallow | FHistDeep => true end).
+    rewrite Ht.
+    assert (Hmem : forall k, In k (fs_children (st c q)) -> mem k (0 :: cfgS) = mem k cfgS).
+    { intros k Hk. apply (wf_children c W) in Hk. destruct (wf_par_lt c W _ _ Hk) as [Hlt _]. cbn [mem].
+      replace (k =? 0) with false by (symmetry; apply Nat.eqb_neq; lia). reflexivity. }
+    assert (Hnf : forall k, In k (fs_children (st c q)) -> fs_type (st c k) <> FFinal -> in_final c (S f2) (0 :: cfgS) k = false).
+    { intros k Hk Hkf. apply nf_large. intros z [->|Hz]; [exact Hkf|]. intros Hzf.
+      apply (wf_children c W) in Hk.
+      assert (Hgz : Anc g z) by (eapply anc_trans; [exact Hgq|]; eapply anc_trans; [apply anc_parent; exact Hk | exact Hz]).
+      destruct (HG z Hzf Hgz) as (q' & Hpz & Hpq' & _).
+      destruct (anc_child _ _ _ _ Hpz Hz) as [->|Hkq'].
+      - rewrite Hk in Hpq'. injection Hpq' as E0. rewrite E0 in Hq. destruct (wf_par_lt c W _ _ Hq). lia.
+      - destruct (anc_child _ _ _ _ Hpq' Hkq') as [->|Hkg].
+        + apply (anc_antisym g q Hgq). now apply anc_parent.
+        + apply (anc_antisym g k); [eapply anc_trans; [exact Hgq | now apply anc_parent] | exact Hkg]. }
+    destruct (find (fun ch => mem ch (0 :: cfgS)) (fs_children (st c q))) as [k|] eqn:E.
+    + apply find_some in E as [Hk Hm]. rewrite (Hmem k Hk) in Hm.
+      destruct (fs_type (st c k)) eqn:Hkt.
+      1,2,3,5,6,7: (rewrite (Hnf k Hk) by congruence; symmetry; apply not_true_is_false; intros Hex;
+        apply existsb_exists in Hex as (k' & Hk' & Hfk); apply andb_true_iff in Hfk as [Hfk Hm'];
+        assert (k' = k) by (apply (Huniq q k' k Ht Hk' Hk); apply Hcf; now apply mem_In); subst k';
+        unfold is_final_state, sty in Hfk; rewrite Hkt in Hfk; discriminate).
+      cbn [in_final]. rewrite Hkt. symmetry. apply existsb_exists. exists k. split; [exact Hk|].
+      unfold is_final_state, sty. now rewrite Hkt, Hm.
+    + symmetry. apply not_true_is_false. intros Hex. apply existsb_exists in Hex as (k' & Hk' & Hfk).
+      apply andb_true_iff in Hfk as [_ Hm']. pose proof (find_none _ _ E k' Hk') as Hn. cbn beta in Hn.
+      rewrite (Hmem k' Hk') in Hn. congruence.
+  - (* parallel: no <final> below *)
+    assert (Hno : forall z, z = q \/ Anc q z -> fs_type (st c z) <> FFinal).
+    { intros z [->|Hz] Hzf; [congruence|].
+      assert (Hgz : Anc g z) by (eapply anc_trans; eauto).
+      destruct (HG z Hzf Hgz) as (q' & Hpz & Hpq' & Hnp).
+      destruct (anc_child _ _ _ _ Hpz Hz) as [->|Hqq']; [congruence|].
+      destruct (anc_child _ _ _ _ Hpq' Hqq') as [->|Hqg]; [exact (anc_irrefl c W _ Hgq) | exact (anc_antisym g q Hgq Hqg)]. }
+    rewrite nf_large, nf_spec by exact Hno. reflexivity.
+  - (* a <final> child of g *)
+    exfalso. destruct (HG q Ht Hgq) as (q' & Hpq & Hpq' & _). rewrite Hq in Hpq. injection Hpq as <-.
+    destruct (wf_par_lt c W _ _ Hpq'). lia.
+Qed.
+
+Lemma in_final_parallel cfgS g fuel fuel' :
+  fs_type (st c g) = FParallel -> CondG g -> (forall y, In y cfgS -> CF y) -> 3 <= fuel -> 1 <= fuel' ->
+  in_final c fuel (0 :: cfgS) g = forallb (in_final_state c fuel' cfgS) (child_states c g).
+Proof.
+  intros Ht HG Hcf Hf Hf'. destruct fuel as [|f1]; [lia|]. cbn [in_final]. rewrite Ht, child_states_core'.
+  assert (Hall : forall l, (forall q, In q l -> In q (fs_children (st c g))) ->
+            forallb (in_final c f1 (0 :: cfgS)) l = forallb (in_final_state c fuel' cfgS) l).
+  { induction l as [|q r IH]; intros Hl; cbn [forallb]; [reflexivity|].
+    rewrite (in_final_child cfgS g q f1 fuel' HG) by (try assumption; try lia; apply (wf_children c W); apply Hl; now left).
+    rewrite IH by (intros z Hz; apply Hl; now right). reflexivity. }
+  apply Hall. auto.
+Qed.
+
+Lemma condG_of_final i p g : fs_type (st c i) = FFinal -> fs_parent (st c i) = Some p -> fs_parent (st c p) = Some g ->
+  fs_type (st c g) = FParallel -> CondG g.
+Proof.
+  intros _ _ _ Hgt f Hf Hgf.
+  inversion Hgf as [? q Hq|? q ? Hq Hgq]; subst.
+  - exfalso. exact (Hfin_par f g Hf Hq Hgt).
+  - exists q. split; [exact Hq|]. split; [|exact (Hfin_par f q Hf Hq)].
+    destruct (Hfin_up f q g Hf Hq Hgq) as [H|H]; [exact H | congruence].
+Qed.
+
+Definition erel' (a : enter_acc) (sx : sstate * xstate) : Prop :=
+  erel c a sx /\ forall y, In y (s_cfg (fst sx)) -> CF y.
+
+Lemma tails_conform cfgS initd1 entered1 s x2 i : 0 < i -> i < nstates c ->
+  data_rel c initd1 entered1 -> (forall y, In y cfgS -> CF y) ->
+  erel c (l_tail c ts (0 :: cfgS) initd1 (negb (s_running s)) x2 i) (s_tail c e cfgS entered1 s x2 i) /\
+  s_cfg (fst (s_tail c e cfgS entered1 s x2 i)) = cfgS.
+Proof.
+  intros Hi Hin HD Hcf. destruct (wf_par_some c W i Hi Hin) as (p & Hp).
   unfold l_tail, s_tail. cbn zeta.
   rewrite exec_blocks_root by apply Hsilent. rewrite Hhc. cbn [rev fold_left].
   set (x4 := emit (TEe (fs_sid (st c i))) (exec_blocks ex_fixed (inst_of c cfgS) (fs_onentry (st c i)) x2)).
@@ -382,49 +543,68 @@ Proof.
   replace (if mem i (e_default e) then x4 else x4) with x4 by (destruct (mem i (e_default e)); reflexivity).
   unfold is_final_state, sty.
   destruct (fs_type (st c i)) eqn:Hty;
-    try (unfold erel; cbn [fst snd ea_cfg ea_tlf ea_initd ea_x s_cfg s_running s_entered]; repeat split; assumption).
-  rewrite Hp.
-  assert (Hnpar : forall b, b = p \/ Anc (fun i => fs_parent (st c i)) b p -> fs_type (st c b) <> FParallel).
-  { intros b [->|Hb]; apply (Hfin i); try exact Hty; [now apply anc_parent | eapply anc_step; eauto]. }
-  rewrite done_walk_none by exact Hnpar.
+    try (split; [|reflexivity]; unfold erel; cbn [fst snd ea_cfg ea_tlf ea_initd ea_x s_cfg s_running s_entered]; repeat split; assumption).
+  rewrite Hp. pose proof (Hfin_par i p Hty Hp) as Hpnp.
   destruct p as [|p'].
-  - unfold erel; cbn [fst snd ea_cfg ea_tlf ea_initd ea_x s_cfg s_running s_entered]. repeat split; try assumption.
-    now rewrite orb_true_r.
-  - assert (Hx8 : match fs_parent (st c (S p')) with
-                  | Some g => if is_parallel_state c g && forallb (in_final_state c (Spec.n c) cfgS) (child_states c g)
-                              then raise_int (spec_done_event c g) (raise_int (spec_done_event c (S p')) x4)
-                              else raise_int (spec_done_event c (S p')) x4
-                  | None => raise_int (spec_done_event c (S p')) x4
-                  end = raise_int (spec_done_event c (S p')) x4).
-    { destruct (fs_parent (st c (S p'))) as [g|] eqn:Hg; [|reflexivity].
-      assert (Hgp : fs_type (st c g) <> FParallel) by (apply Hnpar; right; now apply anc_parent).
-      unfold is_parallel_state, sty. destruct (fs_type (st c g)); try reflexivity. congruence. }
-    rewrite Hx8.
+  - assert (Hw : done_walk c (n_states c) (0 :: cfgS) (Some 0) x4 = x4).
+    { apply done_walk_none. intros b [->|Hb]; [exact Hpnp | exfalso; exact (no_anc_root _ (wf_root_par c W) _ Hb)]. }
+    rewrite Hw. split; [|reflexivity].
     unfold erel; cbn [fst snd ea_cfg ea_tlf ea_initd ea_x s_cfg s_running s_entered]. repeat split; try assumption.
-    now rewrite orb_false_r.
+    now rewrite orb_true_r.
+  - destruct (wf_par_lt c W _ _ Hp) as [Hplt _].
+    destruct (wf_par_some c W (S p') ltac:(lia) ltac:(lia)) as (g & Hg). rewrite Hg.
+    destruct (wf_par_lt c W _ _ Hg) as [Hglt _].
+    assert (Hn3 : 3 <= n_states c) by (unfold n_states; lia).
+    assert (Habove : forall b, Anc b g -> fs_type (st c b) <> FParallel).
+    { intros b Hb. destruct (Hfin_up i (S p') b Hty Hp) as [H|H]; [eapply anc_step; eauto | | exact H].
+      exfalso. rewrite Hg in H. injection H as <-. exact (anc_irrefl c W _ Hb). }
+    assert (Hup : forall f y, done_walk c f (0 :: cfgS) (fs_parent (st c g)) y = y).
+    { intros f y. destruct (fs_parent (st c g)) as [gg|] eqn:Hgg; [|apply done_walk_top].
+      apply done_walk_none. intros b [->|Hb]; apply Habove; [now apply anc_parent | eapply anc_step; eauto]. }
+    destruct (n_states c) as [|[|n2]] eqn:En; try lia.
+    rewrite done_walk_step by exact Hpnp. rewrite Hg.
+    change (spec_done_event c) with (done_event c).
+    destruct (fs_type (st c g)) eqn:Hgt.
+    1,2,4,5,6,7: (rewrite done_walk_step by congruence; rewrite Hup; unfold is_parallel_state, sty; rewrite Hgt; cbn [andb];
+      split; [|reflexivity]; unfold erel; cbn [fst snd ea_cfg ea_tlf ea_initd ea_x s_cfg s_running s_entered];
+      repeat split; try assumption; now rewrite orb_false_r).
+    rewrite done_walk_par by exact Hgt. rewrite En.
+    rewrite (in_final_parallel cfgS g (S (S n2)) (Spec.n c) Hgt (condG_of_final i (S p') g Hty Hp Hg Hgt) Hcf)
+      by (unfold Spec.n, n_states in *; lia).
+    unfold is_parallel_state, sty. rewrite Hgt. cbn [andb].
+    destruct (forallb (in_final_state c (Spec.n c) cfgS) (child_states c g)); [rewrite Hup|];
+      (split; [|reflexivity]; unfold erel; cbn [fst snd ea_cfg ea_tlf ea_initd ea_x s_cfg s_running s_entered];
+       repeat split; try assumption; now rewrite orb_false_r).
 Qed.
 
-Lemma enter_one_conforms a sx i : erel c a sx -> 0 < i -> i < nstates c ->
-  erel c (enter_one ex_fixed c ts a i) (spec_enter_one c e sx i).
+Lemma enter_one_conforms a sx i : erel' a sx -> 0 < i -> i < nstates c -> CF i ->
+  erel' (enter_one ex_fixed c ts a i) (spec_enter_one c e sx i).
 Proof.
-  intros (Hc & Ht & Hd & Hx) Hi Hin. destruct sx as [s x]. cbn [fst snd] in *.
+  intros [(Hc & Ht & Hd & Hx) Hcf] Hi Hin Hic. destruct sx as [s x]. cbn [fst snd] in *.
+  assert (Hcf1 : forall y, In y (insert_sorted i (s_cfg s)) -> CF y).
+  { intros y Hy. apply In_insert_sorted' in Hy as [->|Hy]; [exact Hic | now apply Hcf]. }
   rewrite enter_one_staged, spec_enter_one_staged, no_pseudo.
   rewrite Hc, Hx, Ht, (insert_sorted_root i (s_cfg s)) by lia.
+  assert (Hfinish : forall initd1 entered1 x2, data_rel c initd1 entered1 ->
+     erel' (l_tail c ts (0 :: insert_sorted i (s_cfg s)) initd1 (negb (s_running s)) x2 i)
+           (s_tail c e (insert_sorted i (s_cfg s)) entered1 s x2 i)).
+  { intros initd1 entered1 x2 HD. destruct (tails_conform (insert_sorted i (s_cfg s)) initd1 entered1 s x2 i Hi Hin HD Hcf1) as [A B].
+    split; [exact A | rewrite B; exact Hcf1]. }
   destruct (fs_data (st c i)) as [|d0 ds] eqn:Hdt.
-  - destruct (fc_late c && negb (mem i (s_entered s))); cbn [fold_left]; apply tails_conform; try assumption.
+  - destruct (fc_late c && negb (mem i (s_entered s))); cbn [fold_left]; apply Hfinish; try assumption.
     intros j Hj. rewrite mem_insert_sorted. destruct (j =? i) eqn:E; [apply Nat.eqb_eq in E; subst; congruence|]. now apply Hd.
   - assert (Hl : fc_late c = true).
     { destruct (fc_late c) eqn:E; [reflexivity|]. rewrite (Hdata eq_refl i) in Hdt by lia. discriminate. }
     rewrite Hl. cbn [andb]. rewrite <- (Hd i) by (rewrite Hdt; discriminate).
-    destruct (mem i (ea_initd a)); cbn [negb]; apply tails_conform; try assumption.
+    destruct (mem i (ea_initd a)); cbn [negb]; apply Hfinish; try assumption.
     intros j Hj. rewrite !mem_insert_sorted. now rewrite (Hd j Hj).
 Qed.
 
-Lemma enter_fold_conforms es : forall a sx, erel c a sx -> (forall i, In i es -> 0 < i /\ i < nstates c) ->
-  erel c (fold_left (enter_one ex_fixed c ts) es a) (fold_left (spec_enter_one c e) es sx).
+Lemma enter_fold_conforms es : forall a sx, erel' a sx -> (forall i, In i es -> 0 < i /\ i < nstates c /\ CF i) ->
+  erel' (fold_left (enter_one ex_fixed c ts) es a) (fold_left (spec_enter_one c e) es sx).
 Proof.
   induction es as [|i r IH]; intros a sx Hr Hb; cbn [fold_left]; [exact Hr|].
   apply IH; [|intros j Hj; apply Hb; now right].
-  destruct (Hb i (or_introl eq_refl)). now apply enter_one_conforms.
+  destruct (Hb i (or_introl eq_refl)) as (A & B & C). now apply enter_one_conforms.
 Qed.
 End Enter.
